@@ -3,35 +3,35 @@
 import json, os
 V = '/verif'
 props = [json.loads(l) for l in open(V + '/properties.jsonl')]
-TECH = "solver-based checking: symbolic execution of the real Go SSA (symgo) -> SMT-LIB2 bit-vector queries decided by z3; models replayed natively"
+TECH = "solver-based checking: symbolic execution of the real Go SSA (symgo) -> SMT-LIB2 bit-vector queries decided by z3 4.8.12 (cvc5 1.0 / z3 5.1.0 only for queries it leaves undecided); counterexample models replayed natively against the real build"
 NOTE_COMMON = ("Trusted: go/ssa lowering (x/tools v0.29.0), the symgo executor's encoding of Go semantics and its intrinsics "
-               "(bytes.Buffer, encoding/binary, fmt, errors; listed in DESIGN.md 2.6), z3 4.8.12. Bounds and what lies outside them are "
+               "(bytes.Buffer, encoding/binary, fmt, errors; listed in DESIGN.md 2.6), z3 4.8.12 (fallback solvers cvc5 1.0 and z3 5.1.0 for queries it leaves undecided; count in the evidence). Bounds and what lies outside them are "
                "in the evidence file (coverage.bounds / coverage.outside_claim) and DESIGN.md. unknown/timeout/unsupported are reported "
                "as INCONCLUSIVE, never as success or violation. ")
 claimed = {
  'C19': dict(cat='other', ref='5/C19 and 9',
-   text="What the solver-based machinery decides is a sequential statement that implies the property: on every symbolic path of a representative set of library calls (decode, encode, ciphering, MAC, accessors, conversions, QoS, UE policy, allocator) every store is proved to hit only objects owned by the call (receiver / output argument) or allocated during it, never the input, a shared message or package-level state; plus a whole-library SSA scan (2165 functions) proving that package-level variables are only read outside init and that no goroutine/channel construct exists. Race freedom and sequential consistency for arbitrary interleavings follow by the disjoint-footprint argument, which is reasoning in DESIGN.md, not a solver result.",
+   text="What the solver-based machinery decides is a sequential statement that implies the property: on every symbolic path of a representative set of library calls (decode, encode, ciphering, MAC, accessors, conversions, QoS, UE policy, allocator) every store is proved to hit only objects owned by the call (receiver / output argument) or allocated during it, never the input, a shared message or package-level state; readers of a shared mobile identity are run with nothing owned (any store to pre-existing memory counts, also one that is undone); plus a whole-library SSA scan (2165 functions) proving that package-level variables are only read outside init and that no goroutine/channel construct exists. Race freedom and sequential consistency for arbitrary interleavings follow by the disjoint-footprint argument, which is reasoning in DESIGN.md, not a solver result.",
    note="Level 'other': no schedule is explored; logrus, crypto/aes and fmt internals are trusted. A hidden global introduced in code no harness enters is caught by the SSA scan only."),
  'C18': dict(cat='model_checking', ref='5/C18',
-   text="The three UE policy decoders run symbolically on every byte string up to 10 (13) octets (no panic, terminate). Command/complete/reject messages and nested lists built through the API with symbolic contents are encoded by the real code and decoded back; lengths are proved to be the ones computed from content and all fields equal. SetPlmnDigit output for every MCC/MNC is proved equal to nasConvert.PlmnIDToNas of the same digits (TS 24.008 digit order), and the parsers are proved to read it back.",
-   note="Shapes up to 2 sub-lists x 2 instructions x 2 parts x 3 content octets."),
+   text="The three UE policy decoders run symbolically on every byte string up to 10 (13) octets (no panic, terminate). Command/complete/reject messages and nested lists built through the API with symbolic contents are encoded by the real code and decoded back; lengths are proved to be the ones computed from content and all fields equal. Length fields are set to arbitrary stale values before MarshalBinary; every nested type is also marshalled alone with contents of symbolic length up to its own 16-bit maximum, and sub-results with 6552..13106 results are parsed. SetPlmnDigit output for every MCC/MNC is proved equal to nasConvert.PlmnIDToNas of the same digits (TS 24.008 digit order), and the parsers are proved to read it back.",
+   note="Shapes up to 2 sub-lists x 2 instructions x 2 parts x 3 content octets, plus the symbolic-length and large-count harnesses."),
  'C15': dict(cat='model_checking', ref='5/C15',
-   text="Real QoS rule / flow description parsers executed on every byte string up to 8 (11) octets (no panic, terminates; every unknown parameter identifier and component type proved to be an error). Shape-directed symbolic lists (every operation, 0/1/2/15 filters, each of the 18 component kinds alone and all in one filter; every parameter kind) are serialised by the real code, proved byte-identical to an encoder written from TS 24.501 9.11.4.12/13, parsed back by the real code and proved field-wise equal.",
+   text="Real QoS rule / flow description parsers executed on every byte string up to 8 (11) octets (no panic, terminates; every unknown parameter identifier and component type proved to be an error). Shape-directed symbolic lists (every operation, 0/1/2/15 filters, each of the 18 component kinds alone and all in one filter; every parameter kind) are serialised by the real code, proved byte-identical to an encoder written from TS 24.501 9.11.4.12/13, parsed back by the real code and proved field-wise equal; two and three rules in every order of full-filter / identifier-only operations; a marshal call after a failed one behaves as on a fresh start.",
    note="Interfaces are dispatched on their concrete type per path."),
  'C16': dict(cat='model_checking', ref='5/C16',
-   text="Real PCO Marshal/UnMarshal executed symbolically: round trip of every list shape up to 3 (4) units with symbolic identifiers and contents proved to reproduce the specified layout (0x80 first) and equal units; UnMarshal on every byte string up to 8 (10) octets proved panic-free, non-mutating and to return only octets of the input at their positions. PSIToBuf/PSIToBooleanArray proved mutually inverse for all 65536 values in one query each; error-cause interleaving for all list lengths 0..4.",
+   text="Real PCO Marshal/UnMarshal executed symbolically: round trip of every list shape up to 3 (4) units with symbolic identifiers and contents, and of 1..2 units with contents of symbolic length 0..255, proved to reproduce the specified layout (0x80 first) and equal units; UnMarshal on every byte string up to 8 (10) octets proved panic-free, non-mutating and to return only octets of the input at their positions. PSIToBuf/PSIToBooleanArray proved mutually inverse for all 65536 values in one query each; error-cause interleaving for all list lengths 0..4.",
    note="Contents per unit <= 3 (6) octets."),
  'C17': dict(cat='model_checking', ref='5/C17',
-   text="GPRSTimer2ToNas / GPRSTimer3ToNas on every duration of the property's ranges against decoders from TS 24.008 (never more than requested; exact when representable); ModelsToSessionAMBR through the real strconv code on every 1..5-digit value 0..65535 x 5 units x 2 directions; time-zone text of all 159 quarter-hour zones x DST 0/1/2 against getTimeZoneOffset and the text decoders; universal time round trip over every instant 2000-2099 (abstract time.Time); network names of every length 0..16 (64) unpacked bit by bit per TS 23.038.",
-   note="time.Time is an abstract record (fixed-offset zones, days 1..28)."),
+   text="GPRSTimer2ToNas / GPRSTimer3ToNas on every duration of the property's ranges against decoders from TS 24.008 (never more than requested; exact when representable); ModelsToSessionAMBR through the real strconv code on every 1..5-digit value 0..65535 x 5 units x 2 directions; time-zone text of all 159 quarter-hour zones x DST 0/1/2 against getTimeZoneOffset and the text decoders; universal time round trip over every instant 2000-2099 with and without daylight saving in effect (abstract time.Time); network names of every length 0..16 (64) unpacked bit by bit per TS 23.038.",
+   note="time.Time is an abstract record (single-rule zones with an offset and a DST flag, days 1..28)."),
  'C13': dict(cat='model_checking', ref='5/C13',
    text="Library encoders (SnssaiToNas, RejectedSnssaiToNas, RejectedNssaiToNas, TaiListToNas, PartialServiceAreaListToNas, LadnToNas) run symbolically on lists of concrete shape with every SST/SD/TAC/PLMN digit symbolic; their output is decoded field by field by assertions written from the TS 24.501 layouts and proved equal to the input lists. Library decoders (SnssaiToModels, RequestedNssaiToModels, LadnToModels) run on reference encodings of every mix of legal entry lengths and are proved to recover the lists exactly; illegal and truncated entry lengths are proved to be errors.",
    note="List sizes bounded (1..3 entries quick, up to 6 thorough)."),
  'C12': dict(cat='model_checking', ref='5/C12',
-   text="Real nasConvert/nasType identity conversions (with the real encoding/hex, strconv, math/bits code) are executed on symbolic octets / digit strings and proved equal to references written from TS 24.501 9.11.3.4 / TS 24.008: PLMN both ways, all 2^24 AMF ids both ways and against the GUTI accessors, GUTI wire->text->wire and acceptance of exactly the well-formed texts over all strings of length 0..24, SUCI (IMSI/NAI) rendering and agreement of the MobileIdentity5GS getters, IMEI/IMEISV, 5G-S-TMSI.",
+   text="Real nasConvert/nasType identity conversions (with the real encoding/hex, strconv, math/bits code) are executed on symbolic octets / digit strings and proved equal to references written from TS 24.501 9.11.3.4 / TS 24.008: PLMN both ways, all 2^24 AMF ids both ways and against the GUTI accessors, GUTI wire->text->wire and acceptance of exactly the well-formed texts over all strings of length 0..24, SUCI (IMSI/NAI) rendering and agreement of the MobileIdentity5GS getters, IMEI/IMEISV, 5G-S-TMSI; rendering is repeatable (a second call on the same element gives the same text).",
    note="String lengths are concrete case splits with symbolic characters; SUCI scheme output <= 4 (8) octets."),
  'C14': dict(cat='model_checking', ref='5/C14',
-   text="Each helper that interprets UE-supplied IE contents is executed symbolically on every byte string (all octets symbolic) of every length 0..12 (24) - strings for the text-input variants - with the real encoding/hex, strconv and math/bits code; every index, slice and nil site is a solver query (a satisfiable one is replayed natively as a panic) and every loop must terminate within an unwinding limit (a loop still running is replayed natively under a deadline as a hang).",
+   text="Each helper that interprets UE-supplied IE contents is executed symbolically on every byte string (all octets symbolic) of every length 0..12 (24) - strings for the text-input variants; length-prefixed parsers also on long contents with a length octet at 63/64/127/128/254/255 - with the real encoding/hex, strconv and math/bits code; every index, slice and nil site is a solver query (a satisfiable one is replayed natively as a panic) and every loop must terminate within an unwinding limit (a loop still running is replayed natively under a deadline as a hang).",
    note="Decoder-enforced minimum lengths are deliberately not assumed. Seven genuine defects found this way were repaired in /repo (fix: commits listed in known_findings.json)."),
  'C06': dict(cat='model_checking', ref='5/C06',
    text="The real NEA1/NEA2/NEA3, NASEncrypt, snow3g and zuc code is executed symbolically with key, COUNT, bearer, direction and payload symbolic and proved equal to reference models transliterated from the SNOW 3G / UEA2, ZUC / EEA3 specifications and CTR mode: tables index-wise, leaf functions full width, one clock of each kind from an arbitrary state, initialisation, keystream prefixes, and the modes for every bit length 0..64 (256) / octet length 0..24 (40). Equalities are decided on canonical normal forms of the two symbolic results and by z3 where they differ; a second set of harnesses abstracts keystream words as uninterpreted functions so that mode-level deviations give short counterexamples.",
@@ -40,31 +40,31 @@ claimed = {
    text="Real NIA1/NIA2/NIA3 and NASMacCalculate executed symbolically (key, COUNT, bearer, direction, message symbolic) and proved equal to UIA2 (f9 with MUL64 proved full width), RFC 4493 CMAC run over the same uninterpreted AES (the real aead/cmac code is executed), and EIA3, for every message length 0..24 (40) octets and every bit length up to 72 (136) through the per-algorithm functions.",
    note="AES uninterpreted; NIA1 bit lengths assume zero pad bits."),
  'C08': dict(cat='model_checking', ref='5/C08',
-   text="Algebraic laws proved by z3 on the real NASEncrypt/NASMacCalculate with keystream generators and AES as uninterpreted functions: length preservation, involution, prefix stability, plaintext-independence of ciphertext xor plaintext, NULL algorithms, rejection of every invalid (algorithm, bearer, direction) triple over all 2^24 combinations with payload untouched, nil payload, MAC always 4 octets, key and message unmodified, and absence of panics for every length including empty.",
+   text="Algebraic laws proved by z3 on the real NASEncrypt/NASMacCalculate with keystream generators and AES as uninterpreted functions: length preservation, involution, prefix stability, plaintext-independence of ciphertext xor plaintext, NULL algorithms, rejection of every invalid (algorithm, bearer, direction) triple over all 2^24 combinations with payload untouched, nil payload, MAC always 4 octets, key and message unmodified (also when the message / payload is a window into a larger buffer: nothing behind it is written), and absence of panics for every length including empty.",
    note="Lengths 0..20 (40)."),
  'C01': dict(cat='model_checking', ref='5/C01',
-   text="The real decoders are executed symbolically (a) on every byte string of the stated short lengths per message type with all octets symbolic, through all three entry points, and (b) on an input of symbolic length 0..70000 whose contents are an uninterpreted function of the position, so that every declared IE length and every truncation point is one path; every slice/index/nil/make site is a solver query, progress and an allocation bound (c + 2*len + 64 KiB) are asserted after the mandatory part and two loop iterations. No sampling.",
+   text="The real decoders are executed symbolically (a) on every byte string of the stated short lengths per message type with all octets symbolic, through all three entry points, and (b) on an input of symbolic length 0..70000 whose contents are an uninterpreted function of the position, so that every declared IE length and every truncation point is one path; every slice/index/nil/make site is a solver query, progress and an allocation bound (c + 2*len + 64 KiB) are asserted after the mandatory part and two loop iterations (a violated bound is replayed natively by measuring real heap allocation). No sampling.",
    note="(b) is cut at the third entry into the optional-element loop; longer inputs rely on the per-iteration facts (DESIGN 5/C01)."),
  'C02': dict(cat='model_checking', ref='5/C02',
-   text="For each of the 45 messages a symbolic well-formed message (every content octet symbolic) is built for the shape families none / all / each single / all-but-one optional element at boundary lengths, encoded with the real PlainNasEncode and decoded with the real PlainNasDecode; z3 proves structural equality of the result with the original, success of both steps and the header view, for all contents at once.",
+   text="For each of the 45 messages a symbolic well-formed message (every content octet symbolic) is built for the shape families none / all / each single / all-but-one optional element at boundary lengths, and with all optional elements present each heap-backed element in turn with a symbolic length over its whole range, encoded with the real PlainNasEncode and decoded with the real PlainNasDecode; z3 proves structural equality of the result with the original, success of both steps and the header view, for all contents at once.",
    note="Arbitrary subsets of optional elements follow by composition of C04's per-element facts (argument in DESIGN, not a solver result). Lengths capped at 24 (quick) / 300 (thorough); C04 covers every declared length on the decode side."),
  'C03': dict(cat='model_checking', ref='5/C03',
-   text="(a) every accepted short byte string per message type: decode, re-encode, decode, encode again; the two messages and the two encodings are proved equal (fixed point). (c) reference encodings (table-driven encoder) of the shape families are accepted and the real re-encoding is proved byte-identical.",
+   text="(a) every accepted short byte string per message type: decode, re-encode, decode, encode again; the two messages and the two encodings are proved equal (fixed point), also for inputs in which an optional element occurs twice. (b) on symbolic-length input every accepted input decodes to a well-formed message. (c) reference encodings (table-driven encoder) of the shape families are accepted and the real re-encoding is proved byte-identical.",
    note="Tail lengths <= 3 (quick) / 5 (thorough) beyond the mandatory minimum for (a)."),
  'C04': dict(cat='model_checking', ref='5/C04',
-   text="Differential check against an independent 150-line table-driven codec driven by /verif/spec/msgtables.json: real Decode<M> on symbolic-length input (0..70000, identifier octet over all 256 values, every declared length) must accept/reject exactly like the reference and yield the same field values; real Encode<M> output on the shape families must equal the reference encoding. All 90 generated functions are entered.",
-   note="Quick explores the mandatory part plus one optional element, thorough two. Oracle provenance: tables bootstrapped from the pinned tree, then audited (spec/AUDIT.md); a drift of the code from the tables is detected with certainty, conformance of the tables to TS 24.501 as far as the audit goes."),
+   text="Differential check against an independent 150-line table-driven codec driven by /verif/spec/msgtables.json: real Decode<M> on symbolic-length input (0..70000, identifier octet over all 256 values, every declared length) must accept/reject exactly like the reference and yield the same field values; real Encode<M> output on the shape families (incl. one element of symbolic length) must equal the reference encoding; every optional element twice; PlainNasDecode must accept exactly what the reference accepts for header + mandatory part. All 90 generated functions are entered.",
+   note="Quick explores the mandatory part plus one optional element, thorough two (PDUSessionEstablishmentAccept one in both tiers). Oracle provenance: tables bootstrapped from the pinned tree, then audited (spec/AUDIT.md); a drift of the code from the tables is detected with certainty, conformance of the tables to TS 24.501 as far as the audit goes."),
  'C05': dict(cat='model_checking', ref='5/C05',
-   text="The real dispatchers are executed on all short inputs with symbolic octets (all 256x256 discriminator/type pairs) and per message type on all lengths up to the message's minimum + 2; on success exactly one body is set, it is the one named by the type octet, the other family is nil, the header view equals the body's header octets; unknown discriminator/type, nil, empty and short inputs are proved rejected; encode dispatch with symbolic header type.",
+   text="The real dispatchers are executed on all short inputs with symbolic octets (all 256x256 discriminator/type pairs) and per message type on all lengths up to the message's minimum + 2; on success exactly one body is set, it is the one named by the type octet, the other family is nil, the header view equals the body's header octets; unknown discriminator/type, nil, empty and short inputs are proved rejected; encode dispatch with symbolic header type; a second decode into a Message that already went through a decode of the same family still leaves exactly the named body.",
    note="Known header type with nil body on encode is outside the property as read (observation in DESIGN)."),
  'C10': dict(cat='model_checking', ref='5/C10',
-   text="The engine's heap makes aliasing first-class: on every explored path of decode (accepted and rejected inputs) the input object is proved unchanged and no object reachable from the message is reachable from the input; for encode the message is proved unchanged, the buffer prefix kept and the appended bytes independent of the buffer's prior content; a second run gives equal results.",
+   text="The engine's heap makes aliasing first-class: on every explored path of decode (accepted and rejected inputs) the input object is proved unchanged and no object reachable from the message is reachable from the input; for encode the message is proved unchanged, the buffer prefix kept and the appended bytes independent of the buffer's prior content; the same through PlainNasEncode / the family encoders on a Message built as callers do (header view included); a second run gives equal results.",
    note="Bounds as C03(a)/C02 shapes none+all."),
  'C20': dict(cat='model_checking', ref='5/C20',
-   text="Inductive step decided by z3: from an arbitrary allocator state satisfying the representation invariant (any minValue, any scan offset, any live subset; range sizes 1..6/10) one Allocate / Allocate_inRange(any 16-bit a,b) / FreeID(any int64) is executed symbolically on the real code (the scan loop is unrolled by execution, the Go map is a symbolic association list); asserted: id in [min,max], id was not live, live set = pre+{id}, failure only when all ids live, freed id allocatable again, invariant re-established. Plus all op histories of depth <=3/4 from NewGenerator. One step from any state covers sequences of any length.",
+   text="Inductive step decided by z3: from an arbitrary allocator state satisfying the representation invariant (any minValue, any scan offset, any live subset; range sizes 1..6/10) one Allocate / Allocate_inRange(any 16-bit a,b, and a at the extremes of int64) / FreeID(any int64) is executed symbolically on the real code (the scan loop is unrolled by execution, the Go map is a symbolic association list); asserted: id in [min,max], id was not live, live set = pre+{id}, failure only when all ids live, freed id allocatable again, invariant re-established. Plus all op histories of depth <=3/4 from NewGenerator. One step from any state covers sequences of any length.",
    note="Bounds: valueRange <= 6 (quick) / 10 (thorough); Allocate_inRange arguments 16-bit. maxValue < minValue outside the claim."),
  'C09': dict(cat='model_checking', ref='5/C09',
-   text="Every annotated Get/Set pair of nasType (regenerated from /repo on each run) is executed symbolically on an element whose every octet, Iei and Len are symbolic, with a full-width symbolic argument; getter value, complete post-state of the setter (so all other bits, Iei, Len) and set-then-get are proved equal to a bit-layout reference derived from the 'Row, sBit, len' annotation. No sampling: one solver query per assertion covers all prior contents and all values.",
+   text="Every annotated Get/Set pair of nasType (regenerated from /repo on each run) is executed symbolically on an element whose every octet, Iei and Len are symbolic, with a full-width symbolic argument; getter value, complete post-state of the setter (so all other bits, Iei, Len) and set-then-get are proved equal to a bit-layout reference derived from the 'Row, sBit, len' annotation. The DNN text accessors (label sequences of 1..255 octets) are checked against the label layout by hand-written harnesses. No sampling: one solver query per assertion covers all prior contents and all values.",
    note="Expected bit positions come from the source annotations (the documented position). Buffer-backed fields: Buffer just long enough for the field; INF fields at 3 buffer x 4 value lengths."),
  'C11': dict(cat='model_checking', ref='5/C11',
    text="Inductive step: each Count operation is executed symbolically from an arbitrary 32-bit state satisfying count<2^24 with full-width symbolic arguments; invariant, Get=Overflow*256+SQN, AddOne=(Get+1) mod 2^24 with carry, independence of SQN/Overflow setters and read-only getters are proved by z3; base case on the zero value. Covers histories of any length.",
